@@ -57,7 +57,12 @@ def gen_event(rng, i, now, job_exe, scale_target, near=None):
     L = rng.choice(LIMITS + [rng.randint(1, 200), rng.randint(1, 5000000)])
     start = int(now) + 60 * rng.randint(1, 3) + rng.randint(0, 59)
     kind = rng.choice(["dtend", "duration", "duration", "dtend-date"])
-    if near is not None and rng.random() < 0.7:
+    if near is not None and near[0] is None and rng.random() < 0.7:
+        # a month or a year (or a leap day) ends shortly after NOW: windows that reach across it, as DTEND - DTSTART
+        tr = near[1]
+        L = rng.choice([1, 600, 3600, 5400, 7200, 86400, 90000, 172800, max(1, tr - start), max(1, tr - start + 1), tr - start + 1800, tr - start + 86400, tr - start + 86401])
+        kind = "dtend"
+    elif near is not None and near[0] is not None and rng.random() < 0.7:
         # the window is written in wall-clock times of a zone whose clocks change shortly after NOW: the limit is the time
         # that really passes between the two, whatever the clocks show
         zone, tr = near
@@ -114,6 +119,13 @@ def pipeline(root, part, rng, tier):
             tr = rng.choice([t for t in trs if 1200000000 < t < 1600000000])
             now = float(tr - rng.choice([300, 1000, 3000, 3700, 7000, 20000])) + 0.5
             near = (zone, tr)
+        elif rng.random() < 0.3:
+            import calendar
+            y = rng.randint(2008, 2020)
+            mo, dom = rng.choice([(1, 1), (2, 1), (2, 28), (2, 29) if y % 4 == 0 else (2, 28), (3, 1), (12, 31), (rng.randint(1, 12), 1)])
+            tr = calendar.timegm((y, mo, dom, 0, 0, 0))
+            now = float(tr - rng.choice([300, 1000, 3000, 3700, 7000])) + 0.5
+            near = (None, tr)
         job = build.exe(root, "asan", "h_job")
         evs = [gen_event(rng, i, now, job, 0.25, near) for i in range(rng.choice([1, 3, 6]))]
         fn = os.path.join(d, "in.ics")
@@ -143,6 +155,8 @@ def pipeline(root, part, rng, tier):
         for ev in evs:
             part.evaluations += 1
             L = ev["L"]
+            if near is not None and near[0] is None and ev["kind"] == "dtend" and ev["start"] < near[1] <= ev["start"] + L:
+                part.count("windows_across_the_end_of_a_month_or_year")
             if ev["kind"] == "dtend-zoned":
                 part.count("windows_in_wall_clock_times")
                 if "across" in ev["spec"]:
